@@ -280,9 +280,43 @@ structure Combined where
   cur : List Module
 deriving DecidableEq, Repr
 
-/-- `combine_modules(current, previous)`; strands are `cds.location.strand`.
-    Models the code *with* fixes/D25_combine_kr_after_end.patch (the `is_terminated` guard on the
-    trailing-KR merge). -/
+/-- the construction of the merged module inside `combine_modules`: the head's components are
+    re-added outside the `try` block (an error there propagates), the tail's inside it
+    (IncompatibleComponentError → no merge); an incomplete result is discarded -/
+def mergeModules (head tail : Module) : Except Err (Option Module) :=
+  match replayGo (Module.new false) head.components with
+  | .error e => .error e
+  | .ok m1 =>
+    match replayGo m1 tail.components with
+    | .error .incompatible => .ok none
+    | .error e => .error e
+    | .ok m2 => if !m2.isComplete then .ok none else .ok (some m2)
+
+/-- the last step of `combine_modules`: a single-KR module following the merged trans-AT module
+    is taken in as well.  Models the code *with* fixes/D25_combine_kr_after_end.patch (the
+    `is_terminated` guard).  `curRest` is `current.modules` after the tail was popped. -/
+def absorbTrailingKr (m2 : Module) (curRest : List Module) : Except Err (Module × List Module) :=
+  match curRest with
+  | [] => .ok (m2, [])
+  | next :: curRest2 =>
+    match next.components with
+    | [kr] =>
+      if m2.isTransAt && !m2.isTerminated && kr.label == trailingKrLabel then
+        match addComponent m2 kr [] with
+        | .error e => .error e
+        | .ok m3 => .ok (m3, curRest2)
+      else .ok (m2, curRest)
+    | _ => .ok (m2, curRest)
+
+/-- `invalid_tail = tail.is_complete() and not tail.components[0].is_fused_starter()` -/
+def invalidTail (tail : Module) : Except Err Bool :=
+  if tail.isComplete then
+    match tail.components with
+    | [] => .error .indexError
+    | c0 :: _ => .ok (!c0.isFusedStarter)
+  else .ok false
+
+/-- `combine_modules(current, previous)`; strands are `cds.location.strand` -/
 def combine (curStrand prevStrand : Int) (cur prev : List Module) : Except Err Combined :=
   let unchanged : Combined := ⟨none, prev, cur⟩
   if curStrand != prevStrand then .ok unchanged
@@ -290,40 +324,19 @@ def combine (curStrand prevStrand : Int) (cur prev : List Module) : Except Err C
   | none, _ => .ok unchanged
   | _, [] => .ok unchanged
   | some head, tail :: curRest =>
-    -- invalid_tail = tail.is_complete() and not tail.components[0].is_fused_starter()
-    let invalidTail : Except Err Bool :=
-      if tail.isComplete then
-        match tail.components with
-        | [] => .error .indexError
-        | c0 :: _ => .ok (!c0.isFusedStarter)
-      else .ok false
-    match invalidTail with
+    match invalidTail tail with
     | .error e => .error e
     | .ok invalid =>
     if head.isComplete || invalid then .ok unchanged
     else if (head.isPks && tail.isNrps) || (head.isNrps && tail.isPks) then .ok unchanged
     else
-      -- the head is re-added outside the try block
-      match replayGo (Module.new false) head.components with
+      match mergeModules head tail with
       | .error e => .error e
-      | .ok m1 =>
-        match replayGo m1 tail.components with
-        | .error .incompatible => .ok unchanged
+      | .ok none => .ok unchanged
+      | .ok (some m2) =>
+        match absorbTrailingKr m2 curRest with
         | .error e => .error e
-        | .ok m2 =>
-          if !m2.isComplete then .ok unchanged
-          else
-            match curRest with
-            | [] => .ok ⟨some m2, prev.dropLast ++ [m2], []⟩
-            | next :: curRest2 =>
-              match next.components with
-              | [kr] =>
-                if m2.isTransAt && !m2.isTerminated && kr.label == trailingKrLabel then
-                  match addComponent m2 kr [] with
-                  | .error e => .error e
-                  | .ok m3 => .ok ⟨some m3, prev.dropLast ++ [m3], curRest2⟩
-                else .ok ⟨some m2, prev.dropLast ++ [m2], curRest⟩
-              | _ => .ok ⟨some m2, prev.dropLast ++ [m2], curRest⟩
+        | .ok (m3, curRest') => .ok ⟨some m3, prev.dropLast ++ [m3], curRest'⟩
 
 /-! ### the caller loop of `generate_domains` -/
 
